@@ -17,7 +17,8 @@ package main
 //	kxDhePubShapes        getECDHEPublicKey: for each `case L:` of `switch len(ciphertext)` the triple
 //	                      (L, pubLenStart, whether the 2-byte length prefix is checked)
 //	hsPostHandshakeRefused  readRecordOrCCS, `case recordTypeHandshake:` returns when `handshakeComplete`
-//	                      before writing the handshake buffer (tlcp: F8)
+//	                      before writing the handshake buffer, without reading on (tlcp: F8; a block
+//	                      that ends in `return c.retryReadRecord(…)` ignores the record instead)
 //	hsFrameGuards         readHandshake: the ordered texts of the loop / if conditions in front of
 //	                      `c.hand.Next` / `c.handBuf.Next`
 //	recRetryGuard         retryReadRecord: `c.retryCount++` then `if c.retryCount > maxUselessRecords {…return}`
@@ -252,7 +253,9 @@ func emitParsers(e *emitter, p *pkg) {
 					if len(is.Body.List) > 0 {
 						switch l := is.Body.List[len(is.Body.List)-1].(type) {
 						case *ast.ReturnStmt:
-							refused = true
+							// the connection is refused: the block does not go on reading
+							// (a `return c.retryReadRecord(…)` ignores the record instead)
+							refused = !strings.Contains(p.src(is.Body), "retryReadRecord") && !strings.Contains(p.src(is.Body), "readRecord")
 						case *ast.BranchStmt:
 							refused = l.Tok == token.CONTINUE
 						}
